@@ -2,9 +2,9 @@ package mon
 
 import (
 	"fmt"
-	"os"
 	"math/big"
 	"math/rand"
+	"os"
 	"runtime/debug"
 	"sort"
 	"strings"
